@@ -24,6 +24,7 @@ fn main() {
     let args: Vec<String> = std::env::args().collect();
     let verif_dir = std::env::var("VERIF_DIR").unwrap_or_else(|_| "/verif".to_string());
     runner::install_panic_hook();
+    core::liblog::install_if_asked();
     core::findings::load(&format!("{}/known_findings.json", verif_dir));
     let seed: u64 = std::env::var("VERIF_SEED").ok().and_then(|s| s.parse().ok()).unwrap_or(20260924);
     match args.get(1).map(|s| s.as_str()) {
